@@ -19,8 +19,19 @@ def check(name):
     return deco
 
 
-def prepare():
-    vh = core.build_harness()
+def prepare(optional=False, run=None):
+    """Build the harness from the working tree and generate the data modules.  optional=True (checks that can be decided
+    on the real binary alone): if the harness no longer compiles against the tree - the in-process API changed - the
+    in-process drivers are skipped with a note instead of giving up."""
+    try:
+        vh = core.build_harness()
+    except core.ToolError as ex:
+        if not optional:
+            raise
+        vh = None
+        if run is not None:
+            run.notes.append("the in-process harness does not build against this tree (API of the included sources changed); "
+                             "in-process drivers skipped, the check is decided on the real binary: " + str(ex)[-200:].replace("\n", " "))
     core.gen_specs(vh)
     return vh
 
@@ -579,11 +590,13 @@ def search_check(prop, judged, tier, seed, build, pv=False):
     """build(run, vh, quick, rnd, classes, pools, flat, games) -> list of (label, histories)"""
     import random
     run = core.Run(prop, tier, seed)
-    vh = prepare()
+    vh = prepare(optional=(prop == "C19"), run=run)
     quick = tier == "quick"
     rnd = random.Random(seed)
     game.trace_dir(prop)
     batches = build(run, vh, quick, rnd)
+    if vh is None:
+        batches = []
     total = 0
     keys = set()
     alljobs = []
@@ -601,7 +614,7 @@ def search_check(prop, judged, tier, seed, build, pv=False):
                         "best": e["best"], "depths": e["info"]["depths"], "pvs": e["info"]["pvs"][-1:], "polls": e["polls"],
                         "polls_after_stop": e["after"], "history": e["h"], "step": e["s"]})
         k += 1
-    run.cov["evaluations"] = total
+    run.cov["evaluations"] = run.cov.get("evaluations", 0) + total
     run.cov["distinct_nontrivial"] = len(keys)
     run.cov["rule"] = ("one case = one search (root position, depth limit, stop poll index, table history before it); distinct by "
                        "(root, prefix, limit, stop index, fresh); histories come from the SearchCtl.tla scenario enumeration (all table "
@@ -816,7 +829,10 @@ def c18(tier, seed):
 def c19(tier, seed):
     def build(run, vh, quick, rnd):
         srch.searchctl(run, 2, False, "C19")
-        classes, pools, flat, games = search_pools(run, vh, "C19", seed, quick)
+        if vh is not None:
+            classes, pools, flat, games = search_pools(run, vh, "C19", seed, quick)
+        else:
+            flat = []
         pos = rnd.sample(flat, min(len(flat), 10 if quick else 40)) + [(f, []) for f in gen.read_roots()[:: (4 if quick else 1)]]
         depths = [1, 2, 3, 4] if quick else [1, 2, 3, 4, 5]
         hs = []
@@ -867,6 +883,8 @@ def c19(tier, seed):
             groups.append(g)
         uci_outs, _ = run_sessions(run, "C19", groups, {"C19"}, "ucirepro")
         run.cov["uci_sessions"] = sum(len(g) for g in groups)
+        run.cov["evaluations"] += sum(len(g) for g in groups)
+        run.sample({"uci_group": [{"id": sd["id"], "steps": [st.get("send", st) for st in sd["steps"]][:10]} for sd in groups[0][:3]]})
         return [("repro", hs)]
     search_check("C19", {"C19"}, tier, seed, build)
 
@@ -1098,7 +1116,7 @@ def tlaps(run, module):
 def c13(tier, seed):
     import random
     run = core.Run("C13", tier, seed)
-    prepare()
+    prepare(optional=True, run=run)
     quick = tier == "quick"
     rnd = random.Random(seed)
     binary = core.build_bin(False)
@@ -1288,7 +1306,7 @@ def uci_sessions(run, tag):
 def c14(tier, seed):
     import random
     run = core.Run("C14", tier, seed)
-    prepare()
+    prepare(optional=True, run=run)
     quick = tier == "quick"
     rnd = random.Random(seed)
     binary = core.build_bin(False)
